@@ -237,7 +237,9 @@ Arguments op : clear implicits.
             5 DROP a, 6 READY_FAIL (a handle, b error); outcome b: b mod 4 = 0 Ok (b / 4), 1 Err (b / 4),
             2,3 panic. Without ops the script is the single call of the header:
             CALL req; POLL; INNER_DONE; POLL; BACKUP_DONE; POLL.
-   pred_mode mod 4 selects the predicate; the higher bits select the builder route in the harness.
+   pred_mode mod 4 selects the predicate; the higher bits select the builder route in the harness (order of
+   handle() and the strategy setter, name(), on_event(), a decoy strategy setter or a decoy handle() that is
+   overridden, the convenience constructors): every route configures the same layer.
    The concrete closures below are mirrored verbatim in harness/src/bin/c17.rs. *)
 Definition fe (e : Z) : Z := 1000 + 3 * e.
 Definition fre (r e : Z) : Z := 2000 + 37 * r + e.
